@@ -6,7 +6,8 @@ Driver entries for C12 (beliefs instantiated symbolically: `Sym`).
   fault <class> <seed> <n> <m> <k> <sub> fz=<bits> me=<bits> pr=<bits> in=<bits> no=<bits> li=<bits>
      class: kf | ukfa | ukfg | sukf | glik | bootg | boots | gpf-<kf|ukfa|ukfg|sukf>-<g|s>
      optional trailing token reps=<r>: r successive calls on the same object (scripts consumed across calls),
-     or ep=<e0>/<e1>/…: one call per epoch, the methods named in e_i unavailable during that whole call
+     or ep=<e0>/<e1>/…: one call per epoch, the methods named in e_i unavailable during that whole call;
+     alias=1: in-place calls correct(b, b)
      -> r0:<pred|full|partial|none|some>:<me1,pr0,…|-> r1:…
   fault sis-<bootg|boots> <seed> <n> <m> <k> <steps> fz=… …
      -> s0:<pred|corrected|normpred>:<calls> s1:…
@@ -44,6 +45,8 @@ def logStr (l : List Entry) : String :=
 def symLabel : Sym → String
   | .pred => "pred"
   | .full .pred .poison => "full"
+  | .full .pred .pred => "full"
+  | .weighed .pred (.sampled (.full .pred .pred)) => "full"
   | .updated .pred => "full"
   | .weighed .pred (.sampled (.full .pred .poison)) => "full"
   | .weighed .pred (.sampled .pred) => "partial"
@@ -104,6 +107,8 @@ def faultLine : P String := do
   let _ ← nat; let _ ← nat; let m ← nat; let k ← nat; let sub ← nat
   let s ← readScript
   let rest ← get
+  let alias := rest.contains "alias=1"
+  let rest := rest.filter (fun t => t != "alias=1" && t != "alias=0")
   let (reps, epochs) ← match rest with
     | [] => pure (1, ([] : List Script))
     | [t] => (if t.startsWith "reps=" then
@@ -116,6 +121,8 @@ def faultLine : P String := do
                 | none => failure
               else failure)
     | _ => failure
+  -- in place: the output object is the predicted belief itself
+  let cin : Sym := if alias then Sym.pred else Sym.poison
   set ([] : List String)
   if sub == 0 then failure
   let sym (f : Script → FR Sym) : Script → String × String × Script :=
@@ -129,7 +136,9 @@ def faultLine : P String := do
   | ["boots"] => go (sym (fun s => bootCorrect (scriptedLik () .boot) (fun p _ => Sym.updated p) s Sym.pred))
   | ["gpf", w, l] =>
     match gaussOf w m k sub, likOf l .gpf with
-    | some g, some lk => go (sym (fun s => gpfCorrect g Sym.sampled lk (fun p c _ => Sym.weighed p c) s Sym.pred Sym.poison))
+    | some g, some lk =>
+      if alias then go (sym (fun s => gpfCorrectInPlace g Sym.sampled lk (fun p c _ => Sym.weighed p c) s Sym.pred))
+      else go (sym (fun s => gpfCorrect g Sym.sampled lk (fun p c _ => Sym.weighed p c) s Sym.pred Sym.poison))
     | _, _ => failure
   | ["sis", b] =>
     match (if b == "bootg" then likOf "g" .boot else if b == "boots" then likOf "s" .boot else none) with
@@ -139,7 +148,7 @@ def faultLine : P String := do
     | none => failure
   | [c] =>
     match gaussOf c m k sub with
-    | some g => go (sym (fun s => g s Sym.pred Sym.poison))
+    | some g => go (sym (fun s => if alias then gaussInPlace g s Sym.pred else g s Sym.pred cin))
     | none => failure
   | _ => failure
 
